@@ -170,7 +170,14 @@ func TestPropTwap(t *testing.T) {
 			return r.OK()
 		}
 		if rapid.IntRange(0, 2).Draw(rt, "clPool") > 0 {
-			msg := clmodel.NewMsgCreateConcentratedPool(chain.Actor(0), "eth", "usdc", 100, osmomath.NewDecWithPrec(rapid.Int64Range(0, 3).Draw(rt, "clSpread"), 3))
+			// token0/token1 in either lexicographic order: a concentrated pool reports its denoms as given at creation, the
+			// records are keyed by the sorted pair
+			d0, d1 := "eth", "usdc"
+			if rapid.Bool().Draw(rt, "clDenomsDescending") {
+				d0, d1 = d1, d0
+				cs.Class("cl-pool-denoms-descending")
+			}
+			msg := clmodel.NewMsgCreateConcentratedPool(chain.Actor(0), d0, d1, 100, osmomath.NewDecWithPrec(rapid.Int64Range(0, 3).Draw(rt, "clSpread"), 3))
 			if r := c.Exec(&msg); !r.OK() {
 				rt.Fatalf("harness: create CL pool: %v", r.Err)
 			}
